@@ -39,6 +39,9 @@ NInf == RealS("ninf")
 NZero == RealS("nzero")
 P63 == RealS("p63")        \* 2^63 exactly (one above i64::MAX)
 N63 == RealS("n63")        \* -2^63 exactly (= i64::MIN)
+E19 == RealS("e19")        \* 10^19: a finite REAL beyond the 64-bit integers (printing only: it takes no part in the order laws)
+NE19 == RealS("ne19")
+E300 == RealS("e300")
 P53 == RealS("p53")        \* 2^53 exactly: the last point up to which every integer is a REAL
 P53b == RealS("p53b")      \* 2^53 + 2 (the next REAL)
 I53(i) == [t |-> "int", b |-> 3, i |-> i]     \* the integer 2^53 + i
